@@ -519,7 +519,7 @@ impl Sup {
     }
 
     fn run_regressions(&mut self) {
-        if std::env::var("VERIF_SKIP_REGRESSIONS").is_ok() {
+        if std::env::var("VERIF_SKIP_REGRESSIONS").map(|v| !v.is_empty()).unwrap_or(false) {
             return; // sensitivity experiments only: shows what the generated search finds on its own
         }
         let dir = self.a.verif.join("regressions").join(&self.a.prop);
